@@ -352,7 +352,40 @@ def check_env_modes(ctx, env, name, idx):
             ctx.phi_fail("depends_only_on_explicit_arguments", case, key=f"c12:impure:{name}:{fname}")
 
 
+def check_adapter_jit_depends_on_explicit_arguments_only(ctx):
+    """two Gymnax adapters around environments of the same class with DIFFERENT parameters, used one after the
+    other in one process through Gymnax's public (jitted, `self`-static) `reset` / `step`: each jitted call agrees
+    with the same call under `jax.disable_jit()` — the compiled program of one adapter is not reused for the other."""
+    try:
+        from lerax.compatibility.gymnax import LeraxEnvParams, LeraxToGymnaxEnv
+    except Exception as e:  # noqa: BLE001
+        ctx.note(f"gymnax adapter not importable: {type(e).__name__}"[:100])
+        return
+    pairs = [("CartPole", CartPole(), CartPole(gravity=1.6, force_mag=30.0)),
+             ("Pendulum", Pendulum(), Pendulum(g=3.0, m=2.5))]
+    params = LeraxEnvParams()
+    for name, e1, e2 in pairs[:ctx.budget(1, 2)]:
+        adapters = [LeraxToGymnaxEnv(e1), LeraxToGymnaxEnv(e2)]
+        key = jr.key(int(ctx.rng.integers(0, 2**31)))
+        for which, ad in enumerate(adapters):               # the first adapter is traced first
+            k0, k1, ka = jr.split(jr.fold_in(key, which), 3)
+            obs, st = ad.reset(k0, params)
+            a = ad.action_space(params).sample(ka)
+            jit_out = ad.step(k1, st, a, params)
+            with jax.disable_jit():
+                obs_e, st_e = ad.reset(k0, params)
+                eager_out = ad.step(k1, st_e, a, params)
+            same = _close(ctx, (obs, jit_out[0], jit_out[2], jit_out[3]), (obs_e, eager_out[0], eager_out[2], eager_out[3]))
+            case = {"kind": "gymnax-adapter-jit-vs-eager", "env": name, "adapter": ["default parameters", "other parameters"][which],
+                    "jit_obs": np.asarray(jit_out[0]), "eager_obs": np.asarray(eager_out[0])}
+            ctx.case(case, True)
+            ctx.count("adapter-jit-vs-eager:" + name)
+            if not same:
+                ctx.phi_fail("jit_equals_eager", case, key="c12:adapter-jit-cache")
+
+
 def run(ctx):
+    check_adapter_jit_depends_on_explicit_arguments_only(ctx)
     for i in range(ctx.budget(5, 25)):
         check_collection(ctx, i)
         ctx.gc(4)
